@@ -30,7 +30,9 @@ RULE = ("requests are drawn from VERIF_SEED: parameters on both sides of every b
 CORR_ONLY = ["CDF_Poisson = sum of PMF_Poisson (goes through the numerical GammaQ): vs mpmath at 1e-12 (counts<100) / 1e-3",
              "CDF = integral of the density for Gauss / chi-square / Maxwell-Boltzmann / exponential: mpmath.quad of the definition",
              "Inv_CDF_Poisson, Quantile_Gauss accuracy (1e-7 / 1e-3 through Inv_GammaQ; 1e-4 through Inv_Erf)",
-             "far tails; KDE tabulated values vs the definition, normalisation through Interpolation::Integrate"]
+             "far tails; KDE tabulated values vs the definition; KDE normalisation through Interpolation::Integrate at 2.5e-5 (the library "
+             "renormalises with its adaptive Simpson rule at 1e-8 absolute on a C1 interpolant; worst observed 1.4e-6); KDE with a bandwidth "
+             "below the spacing of its 150-point table is excluded (not representable by the table)"]
 ASSUMPTIONS = ["exp/log/sqrt/erf/pow of libm approximate the real functions (parameters of the model)",
                "rounding slack (documented, minimal): PMF/CDF_Binomial get the denormal spacing 2^-1074 times the other factors as absolute "
                "slack when a factor p^x or (1-p)^(t-x) underflows to a denormal; CDF_Maxwell_Boltzmann may be negative by at most 8 ulp of its erf term "
@@ -206,6 +208,16 @@ def generate(tier, seed, ctx):
         R.append("c07.pois_cdf %s %d" % (hx(mu), n))
     for mu in (-1.0, -1e-300):
         R.append("c07.pois_pmf %s 3" % hx(mu)); R.append("c07.pois_cdf %s 3" % hx(mu))
+    # counts >= 100 / dof > 200 go through the quadrature branch of GammaQ (a > 100): dense where a single-interval
+    # adaptive Simpson stopped prematurely before `fix:` f69671d ((x-a)/sqrt(a) near -0.48, 6.7, 8.84, 9.06)
+    for j in range(600 * n1 if not th else 1500):
+        z = rng.choice([-0.48, 6.7, 8.84, 9.06]) + rng.uniform(-0.08, 0.08) if j % 4 else rng.uniform(-9, 10)
+        if j % 2:
+            n = rng.randint(100, 500); a_ = n + 1.0
+            R.append("c07.pois_cdf %s %d" % (hx(max(1e-3, a_ + z * math.sqrt(a_))), n))
+        else:
+            k = rng.uniform(201, 400) if j % 3 else float(rng.randint(201, 400)); a_ = k / 2
+            R.append("c07.chi_cdf %s %s" % (hx(max(0.0, 2 * (a_ + z * math.sqrt(a_)))), hx(k)))
     for _ in range(8 * n1):
         mu = 10.0 ** rng.uniform(-1, 2.5)
         top = int(mu + 10 * math.sqrt(mu) + 10)
@@ -489,7 +501,8 @@ def _check(op, a, ti, mt, ctx):
         else:
             ref = mpmath.fsum(M(Fraction(w[k])) * d_chi_cdf(X, mpf(k)) for k in range(0, m)) if x >= 0 else mpf(0)
             ref = min(ref, mpf(1))
-            _val(ctx, out, "CDF_Chi_Bar_Square", v, ref, 1e-12 * max(1.0, sum(w)), "is not the weighted mixture of CDF_Chi_Square (dof >= 0)")
+            tolw = sum(abs(w[k]) * tol_gamma(k / 2) for k in range(1, m)) + 1e-12 * max(1.0, sum(w))
+            _val(ctx, out, "CDF_Chi_Bar_Square", v, ref, tolw, "is not the weighted mixture of CDF_Chi_Square (dof >= 0)")
     elif op in ("c07.exp_pdf", "c07.exp_cdf", "c07.mb_pdf", "c07.mb_cdf"):
         x, m = fl(a[0]), fl(a[1]); v = fl(ti[0])
         X, Mm = M(Fraction(x)), M(Fraction(m))
@@ -543,17 +556,22 @@ def _check(op, a, ti, mt, ctx):
         if len(vals) != 299:
             out.append(fail("corr", "KDE: wrong number of sampled values", str(len(vals))))
             return out
-        if any(math.isnan(v) or v < 0 for v in vals):
-            out.append(fail("prop", "KDE takes a negative (or NaN) value inside its window", "min %r" % min(vals)))
-        if math.isnan(integ) or not ratio(ctx, "KDE integrates to one (Interpolation::Integrate)", abs(integ - 1), 1e-6):
-            out.append(fail("prop", "KDE does not integrate to one over its window", "integral %r" % integ))
-        # tabulated values against the definition, up to the common renormalisation factor
         d.sort()
         wsum = sum(w for _, w in d)
         if bw == 0:
             avg = sum(w * v for v, w in d) / wsum
             var = sum(w * (v - avg) ** 2 / wsum for v, w in d)
             bw = math.sqrt(var) * (4.0 / 3.0 / N) ** 0.2
+        if bw < (xmax - xmin) / 149:
+            # stated exclusion: a kernel narrower than the spacing of the 150-point table cannot be represented by the table
+            ctx["excused"] += 1
+            bump(ctx, "KDE: bandwidth below the table spacing (excluded)")
+            return out
+        if any(math.isnan(v) or v < 0 for v in vals):
+            out.append(fail("prop", "KDE takes a negative (or NaN) value inside its window", "min %r" % min(vals)))
+        if math.isnan(integ) or not ratio(ctx, "KDE integrates to one (Interpolation::Integrate)", abs(integ - 1), 2.5e-5):
+            out.append(fail("prop", "KDE does not integrate to one over its window", "integral %r" % integ))
+        # tabulated values against the definition, up to the common renormalisation factor
         if bw > 0:
             npseudo = N // 3
             pts = [(v, w) for v, w in d] + [(4 * xmin - 6 * d[i][0] + 4 * d[2 * i][0] - d[3 * i][0], (d[i][1] + d[2 * i][1] + d[3 * i][1]) / 3) for i in range(npseudo)]
